@@ -218,7 +218,12 @@ theorem inv_step (hv : g.Valid) (s : State) (st : Step) (hgood : StepGood Good s
     (hinv : Inv g H Good s) :
     Inv g H Good (step H g s st).1 := by
   cases st with
-  | addData i b blk peer => exact inv_addData g H Good hv s i b blk peer hinv
+  | addData i b blk peer allocOk =>
+    show Inv g H Good (addDataA g s i b blk peer allocOk).1
+    unfold addDataA
+    split
+    · exact hinv
+    · exact inv_addData g H Good hv s i b blk peer hinv
   | finBegin i => exact inv_finBegin g H Good hv s i hinv
   | hashRead i =>
     show Inv g H Good (hashRead s i).1
